@@ -170,10 +170,20 @@ struct Agg {
 pub fn run(mon: &dyn Monitor, cfg: &RunCfg) -> i32 {
     let t0 = Instant::now();
     let id = mon.id();
-    let labels: Vec<String> = match &cfg.only_label {
+    let mut labels: Vec<String> = match &cfg.only_label {
         Some(l) => vec![l.clone()],
         None => mon.plan(cfg.tier),
     };
+    // VERIF_LIMIT caps the plan (used by the sanitizer add-ons, whose runs are 10-100x slower)
+    if let Some(n) = std::env::var("VERIF_LIMIT").ok().and_then(|s| s.parse::<usize>().ok()) {
+        if labels.len() > n {
+            // keep the head (catalogue) and an even sample of the rest
+            let head = n / 2;
+            let rest: Vec<String> = labels[head..].iter().step_by(((labels.len() - head) / (n - head).max(1)).max(1)).take(n - head).cloned().collect();
+            labels.truncate(head);
+            labels.extend(rest);
+        }
+    }
     let next = AtomicUsize::new(0);
     let stop = AtomicBool::new(false);
     let budget = mon.budget_s(cfg.tier);
